@@ -365,17 +365,19 @@ def initParams : List (Name × ATy) → St → St
       let value : Value := ⟨n, t.toTy, false, false, false⟩
       initParams rest (((s.insertValue n value).registerInner n).push (.fnArg value ⟨n, t.toTy⟩))
 
+/-- the successful part of a function-level return: type existence, return type, instruction -/
+def fnReturnTail (g : Globals) (resTy : Ty) (e : Expr) (r : ExprResult) (s : St) : St :=
+  let s := (checkTypeExists g r.ty e.show s).2
+  let s := if resTy ≠ r.ty then s.addErr .wrongReturnType e.show 1 0 else s
+  if s.cur.manualReturn then s.push (.fnReturnWithLabel r) else s.push (.fnReturn r)
+
 /-- function-level `Expression` / `Return` statement -/
 def fnReturn (g : Globals) (resTy : Ty) (e : Expr) (rc : Bool) (s : St) : St × Bool :=
   let (res, s) := exprM g e s
   let s := if rc then s.addErr .returnAlreadyCalled e.show 1 0 else s
   match res with
   | none => (s, rc)
-  | some r =>
-    let s := (checkTypeExists g r.ty e.show s).2
-    let s := if resTy ≠ r.ty then s.addErr .wrongReturnType e.show 1 0 else s
-    let s := if s.cur.manualReturn then s.push (.fnReturnWithLabel r) else s.push (.fnReturn r)
-    (s, true)
+  | some r => (fnReturnTail g resTy e r s, true)
 
 /-- the `for body in &data.body` of `function_body` -/
 def bodyStmts (g : Globals) (resTy : Ty) : List BodyStmt → Bool → St → St × Bool
